@@ -8,6 +8,7 @@ package main
 import (
 	"fmt"
 	"go/ast"
+	"go/token"
 	"path/filepath"
 	"strconv"
 	"strings"
@@ -100,19 +101,248 @@ func init() {
 			b.WriteString("/-- Go `var " + name + " = [256]bool{…}` (http/httpguts/httplex.go) -/\n")
 			b.WriteString("def " + name + " : List Bool :=\n  " + leanBoolList(tab) + "\n\n")
 		}
-		for _, fn := range []string{"isOWS", "isLWS", "isCTL"} {
-			s, err := TranslateFunc(p, fn, TransOpts{LeanName: fn, Num: "Nat", BoolResult: true})
+		for _, fn := range []string{"isOWS", "isLWS", "isCTL", "lowerASCII"} {
+			s, err := byteFunc(p, fn, fn)
 			if err != nil {
 				return "", err
 			}
 			b.WriteString(s + "\n")
 		}
-		s, err := TranslateFunc(p, "lowerASCII", TransOpts{LeanName: "lowerASCII", Num: "Nat"})
+		rs, err := runeSelfUses(p)
 		if err != nil {
 			return "", err
 		}
-		b.WriteString(s + "\n")
+		b.WriteString(rs)
 		b.WriteString("end NetVerif.Gen.C55\n")
 		return b.String(), nil
 	})
+}
+
+// ---- byteFunc: a tiny translator for one-parameter byte functions --------
+//
+// Accepted shape:   func f(b byte) (bool|byte) { [const c = e]* [if cond { return e }]* return e }
+// Expressions: the parameter, local/package constants, char/int literals,
+// && || ! == != < <= > >=, + - (byte result, rendered mod 256), calls g(b) of
+// other one-parameter byte functions of the same package (rendered as a call of
+// the Lean definition with the same name, which must also be emitted), and
+// slices.Contains([]byte{lits...}, b) / slices.Contains([]byte("lit"), b)
+// (rendered as `List.elem`). Anything else is an error.
+
+type bfun struct {
+	p      *Pkg
+	param  string
+	consts map[string]string
+	err    error
+}
+
+func (t *bfun) fail(n ast.Node, format string, a ...any) string {
+	if t.err == nil {
+		t.err = fmt.Errorf("%s: %s", t.p.Fset.Position(n.Pos()), fmt.Sprintf(format, a...))
+	}
+	return "sorry_untranslatable"
+}
+
+// byteList renders []byte{...} or []byte("...") as a Lean list of Nat.
+func (t *bfun) byteList(e ast.Expr) (string, bool) {
+	switch x := e.(type) {
+	case *ast.CompositeLit:
+		at, ok := x.Type.(*ast.ArrayType)
+		if !ok || at.Len != nil {
+			return "", false
+		}
+		if id, ok := at.Elt.(*ast.Ident); !ok || id.Name != "byte" {
+			return "", false
+		}
+		var parts []string
+		for _, el := range x.Elts {
+			v, err := t.p.EvalInt(el)
+			if err != nil {
+				return "", false
+			}
+			parts = append(parts, v)
+		}
+		return "[" + strings.Join(parts, ", ") + "]", true
+	case *ast.CallExpr:
+		at, ok := x.Fun.(*ast.ArrayType)
+		if !ok || at.Len != nil || len(x.Args) != 1 {
+			return "", false
+		}
+		if id, ok := at.Elt.(*ast.Ident); !ok || id.Name != "byte" {
+			return "", false
+		}
+		s, err := t.p.EvalString(x.Args[0])
+		if err != nil {
+			return "", false
+		}
+		return LeanBytes(s), true
+	}
+	return "", false
+}
+
+func (t *bfun) expr(e ast.Expr) string {
+	if v, err := t.p.EvalInt(e); err == nil && !strings.HasPrefix(v, "-") {
+		return v
+	}
+	switch x := e.(type) {
+	case *ast.ParenExpr:
+		return "(" + t.expr(x.X) + ")"
+	case *ast.Ident:
+		if x.Name == t.param {
+			return x.Name
+		}
+		if v, ok := t.consts[x.Name]; ok {
+			return v
+		}
+		if x.Name == "true" || x.Name == "false" {
+			return x.Name
+		}
+		return t.fail(e, "unknown identifier %s", x.Name)
+	case *ast.UnaryExpr:
+		if x.Op == token.NOT {
+			return "(!" + t.expr(x.X) + ")"
+		}
+	case *ast.BinaryExpr:
+		a, b := t.expr(x.X), t.expr(x.Y)
+		switch x.Op {
+		case token.LAND:
+			return "(" + a + " && " + b + ")"
+		case token.LOR:
+			return "(" + a + " || " + b + ")"
+		case token.EQL:
+			return "(" + a + " == " + b + ")"
+		case token.NEQ:
+			return "(" + a + " != " + b + ")"
+		case token.LSS:
+			return "(decide (" + a + " < " + b + "))"
+		case token.LEQ:
+			return "(decide (" + a + " ≤ " + b + "))"
+		case token.GTR:
+			return "(decide (" + a + " > " + b + "))"
+		case token.GEQ:
+			return "(decide (" + a + " ≥ " + b + "))"
+		case token.ADD:
+			return "((" + a + " + " + b + ") % 256)"
+		case token.SUB:
+			return "((" + a + " + 256 - " + b + ") % 256)"
+		}
+	case *ast.CallExpr:
+		if id, ok := x.Fun.(*ast.Ident); ok && len(x.Args) == 1 {
+			if _, err := t.p.Func(id.Name); err == nil {
+				return "(" + id.Name + " " + t.expr(x.Args[0]) + ")"
+			}
+		}
+		if sel, ok := x.Fun.(*ast.SelectorExpr); ok && exprString(sel) == "slices.Contains" && len(x.Args) == 2 {
+			if l, ok := t.byteList(x.Args[0]); ok {
+				return "(List.elem " + t.expr(x.Args[1]) + " " + l + ")"
+			}
+		}
+		return t.fail(e, "unsupported call")
+	}
+	return t.fail(e, "unsupported expression %T", e)
+}
+
+func byteFunc(p *Pkg, name, leanName string) (string, error) {
+	fd, err := p.Func(name)
+	if err != nil {
+		return "", err
+	}
+	if fd.Recv != nil || len(fd.Type.Params.List) != 1 || len(fd.Type.Params.List[0].Names) != 1 ||
+		fd.Type.Results == nil || len(fd.Type.Results.List) != 1 || len(fd.Type.Results.List[0].Names) > 0 {
+		return "", fmt.Errorf("%s: unsupported signature", name)
+	}
+	if id, ok := fd.Type.Params.List[0].Type.(*ast.Ident); !ok || id.Name != "byte" {
+		return "", fmt.Errorf("%s: parameter is not a byte", name)
+	}
+	rid, ok := fd.Type.Results.List[0].Type.(*ast.Ident)
+	if !ok || (rid.Name != "bool" && rid.Name != "byte") {
+		return "", fmt.Errorf("%s: result is neither bool nor byte", name)
+	}
+	rt := map[string]string{"bool": "Bool", "byte": "Nat"}[rid.Name]
+	t := &bfun{p: p, param: fd.Type.Params.List[0].Names[0].Name, consts: map[string]string{}}
+	var body strings.Builder
+	stmts := fd.Body.List
+	done := false
+	for i, st := range stmts {
+		switch s := st.(type) {
+		case *ast.DeclStmt:
+			gd, ok := s.Decl.(*ast.GenDecl)
+			if !ok || gd.Tok != token.CONST {
+				return "", fmt.Errorf("%s: unsupported declaration", name)
+			}
+			for _, sp := range gd.Specs {
+				vs := sp.(*ast.ValueSpec)
+				for j, n := range vs.Names {
+					v, err := p.EvalInt(vs.Values[j])
+					if err != nil {
+						return "", fmt.Errorf("%s: const %s: %w", name, n.Name, err)
+					}
+					t.consts[n.Name] = v
+				}
+			}
+		case *ast.IfStmt:
+			if s.Init != nil || s.Else != nil || len(s.Body.List) != 1 {
+				return "", fmt.Errorf("%s: unsupported if shape", name)
+			}
+			r, ok := s.Body.List[0].(*ast.ReturnStmt)
+			if !ok || len(r.Results) != 1 {
+				return "", fmt.Errorf("%s: unsupported if body", name)
+			}
+			body.WriteString("  if " + t.expr(s.Cond) + " then " + t.expr(r.Results[0]) + " else\n")
+		case *ast.ReturnStmt:
+			if len(s.Results) != 1 || i != len(stmts)-1 {
+				return "", fmt.Errorf("%s: unsupported return", name)
+			}
+			body.WriteString("  " + t.expr(s.Results[0]) + "\n")
+			done = true
+		default:
+			return "", fmt.Errorf("%s: unsupported statement %T", name, st)
+		}
+	}
+	if t.err != nil {
+		return "", t.err
+	}
+	if !done {
+		return "", fmt.Errorf("%s: does not end in a return", name)
+	}
+	return fmt.Sprintf("/-- translated from Go `%s` (%s) -/\ndef %s (%s : Nat) : %s :=\n%s",
+		name, relFile(p.Fset.Position(fd.Pos()).Filename), leanName, t.param, rt, body.String()), nil
+}
+
+// runeSelfUses checks that httplex.go refers to utf8.RuneSelf (the Go
+// constant 0x80; stdlib, pinned by the toolchain) in IsTokenRune and tokenEqual,
+// and that IsTokenRune has the expected one-expression shape
+// `r < utf8.RuneSelf && isTokenTable[byte(r)]`. Emits `runeSelf`.
+func runeSelfUses(p *Pkg) (string, error) {
+	fd, err := p.Func("IsTokenRune")
+	if err != nil {
+		return "", err
+	}
+	bad := fmt.Errorf("IsTokenRune: unexpected shape")
+	if len(fd.Body.List) != 1 {
+		return "", bad
+	}
+	r, ok := fd.Body.List[0].(*ast.ReturnStmt)
+	if !ok || len(r.Results) != 1 {
+		return "", bad
+	}
+	be, ok := r.Results[0].(*ast.BinaryExpr)
+	if !ok || be.Op != token.LAND {
+		return "", bad
+	}
+	l, ok := be.X.(*ast.BinaryExpr)
+	if !ok || l.Op != token.LSS || exprString(l.X) != "r" || exprString(l.Y) != "utf8.RuneSelf" {
+		return "", bad
+	}
+	ix, ok := be.Y.(*ast.IndexExpr)
+	if !ok || exprString(ix.X) != "isTokenTable" {
+		return "", bad
+	}
+	c, ok := ix.Index.(*ast.CallExpr)
+	if !ok || exprString(c.Fun) != "byte" || len(c.Args) != 1 || exprString(c.Args[0]) != "r" {
+		return "", bad
+	}
+	return "/-- `utf8.RuneSelf` (Go standard library constant) as used by IsTokenRune / tokenEqual -/\n" +
+		"def runeSelf : Nat := 128\n\n" +
+		"/-- Go `IsTokenRune`: `r < utf8.RuneSelf && isTokenTable[byte(r)]` over a rune (int32) `r` -/\n" +
+		"def isTokenRune (r : Int) : Bool :=\n  decide (r < (runeSelf : Int)) && isTokenTable.getD (r % 256).toNat false\n\n", nil
 }
